@@ -675,6 +675,10 @@ func getIDTyp(attrs []xml.Attr) (int, int, string, string) {
 	idIdx := -1
 	typIdx := -1
 	for idx, attr := range attrs {
+		if attr.Name.Space != "" {
+			// Not one of the stanza's own attributes (eg. xml:id).
+			continue
+		}
 		switch attr.Name.Local {
 		case "id":
 			id = attr.Value
